@@ -355,7 +355,7 @@ impl Part for CodecPart {
         codec_case()
     }
     fn cases(&self, tier: Tier) -> u64 {
-        tier.pick(40_000, 4_000_000)
+        tier.pick(200_000, 4_000_000)
     }
     fn exec(&self, c: &CodecCase, out: &mut CaseOut) -> Result<(), Fail> {
         exec(c, out)
